@@ -366,6 +366,22 @@ theorem firstOrderEntry_eq_sum (rs : List (Reaction σ R)) (s j : σ) :
   rw [aux]
   simp
 
+/-- the entry of `firstOrderMatrix` in closed form: `M[s][j] = Σ_{r : reac r = {j: 1}} net r s · k_r` -/
+theorem firstOrderEntry_eq_explicit (rs : List (Reaction σ R)) (s j : σ) :
+    firstOrderEntry rs s j =
+      (rs.map fun r => if r.reac = [(j, 1)] then ((netStoich r s : ℤ) : R) * r.param else 0).sum := by
+  rw [firstOrderEntry_eq_sum]
+  congr 1
+  apply List.map_congr_left
+  intro r _
+  by_cases h : r.reac = [(j, 1)]
+  · rw [if_pos h, if_pos (firstOrderReactant_of_reac h)]
+  · rw [if_neg h, if_neg (fun h' => h (firstOrderReactant_eq_some h'))]
+
+omit [DecidableEq σ] in
+theorem firstOrderMatrix_eq [DecidableEq σ] (keys : List σ) (rs : List (Reaction σ R)) :
+    firstOrderMatrix keys rs = keys.map fun s => keys.map fun j => firstOrderEntry rs s j := rfl
+
 theorem matVecEntry_eq_sum (keys : List σ) (rs : List (Reaction σ R)) (c : σ → R) (s : σ) :
     matVecEntry keys rs c s = (keys.map fun j => firstOrderEntry rs s j * c j).sum := by
   unfold matVecEntry
@@ -436,6 +452,9 @@ def binaryIrrevSys (a b p : σ) (kf : ℝ) : List (Reaction σ ℝ) :=
 def binaryRevSys (a b p : σ) (kf kb : ℝ) : List (Reaction σ ℝ) :=
   [{ reac := [(a, 1), (b, 1)], prod := [(p, 1)], param := kf }, { reac := [(p, 1)], prod := [(a, 1), (b, 1)], param := kb }]
 
+/-- the system `2 a → p ; kf` -/
+def dimerSys (a p : σ) (kf : ℝ) : List (Reaction σ ℝ) := [{ reac := [(a, 2)], prod := [(p, 1)], param := kf }]
+
 theorem rhs_binaryRevSys (a b p : σ) (hab : a ≠ b) (hap : a ≠ p) (hbp : b ≠ p) (kf kb : ℝ) (c : σ → ℝ) (s : σ) :
     valueAt (sysRates c (binaryRevSys a b p kf kb) none none) s =
       if s = a ∨ s = b then -(kf * (c a * c b)) + kb * c p
@@ -505,5 +524,128 @@ theorem binaryState_hasDerivAt (a b p : σ) (hab : a ≠ b) (hap : a ≠ p) (hbp
         exact hasDerivAt_const t (0 : ℝ)
 
 end Bimolecular
+
+/-! ## Part 4: the Euler update carries the element totals (bridge between `EqSolve.compositionConc` and C05's balance) -/
+section Totals
+variable {α : Type} [Field α] [LinearOrder α] [IsStrictOrderedRing α]
+
+/-- amount of composition key `k` per formula unit as `upper_conc_bounds` counts it: ALL items with that key, charge (`0`) skipped -/
+def compWeight (comp : EqSolve.Comp α) (k : ℕ) : α :=
+  (comp.map fun p => if p.1 = k ∧ p.1 ≠ 0 then p.2 else 0).sum
+
+theorem compositionConc_eq_weighted (comps : List (EqSolve.Comp α)) (y : List α) (k : ℕ) :
+    EqSolve.compositionConc comps y k = (List.zipWith (fun w c => w * c) (comps.map fun comp => compWeight comp k) y).sum := by
+  unfold EqSolve.compositionConc
+  simp only [EqSolve.listSum_eq_sum]
+  induction y generalizing comps with
+  | nil => cases comps <;> simp
+  | cons c t ih =>
+    cases comps with
+    | nil => simp
+    | cons comp cs =>
+      simp only [List.zip_cons_cons, List.map_cons, List.sum_cons, List.zipWith_cons_cons, ih cs]
+      congr 1
+      unfold compWeight
+      rw [← List.sum_map_mul_right]
+      congr 1
+      apply List.map_congr_left
+      intro p _
+      by_cases h : p.1 = k ∧ p.1 ≠ 0
+      · simp only [if_pos h, Nat.cast_zero]
+      · simp only [if_neg h, Nat.cast_zero, zero_mul]
+
+/-- `w·(y + t f) = w·y + t (w·f)` for lists of equal length -/
+theorem weighted_eulerNext (ws y f : List α) (t : α) (hl : y.length = f.length) :
+    (List.zipWith (fun w c => w * c) ws (eulerNext y t f)).sum =
+      (List.zipWith (fun w c => w * c) ws y).sum + t * (List.zipWith (fun w c => w * c) ws f).sum := by
+  unfold eulerNext
+  induction ws generalizing y f with
+  | nil => simp
+  | cons w ws ih =>
+    cases y with
+    | nil =>
+      cases f with
+      | nil => simp
+      | cons _ _ => simp at hl
+    | cons a y =>
+      cases f with
+      | nil => simp at hl
+      | cons b f =>
+        simp only [List.zipWith_cons_cons, List.sum_cons, ih y f (by simpa using hl)]
+        ring
+
+theorem eulerNext_length (y f : List α) (t : α) (hl : y.length = f.length) : (eulerNext y t f).length = y.length := by
+  simp [eulerNext, hl]
+
+theorem eulerNext_getElem? (y f : List α) (t : α) (i : ℕ) :
+    (eulerNext y t f)[i]? = match y[i]?, f[i]? with
+      | some yi, some fi => some (yi + t * fi)
+      | _, _ => none := by
+  unfold eulerNext
+  rw [List.getElem?_zipWith]
+  cases y[i]? <;> cases f[i]? <;> rfl
+
+end Totals
+
+section TotalsKin
+variable {σ : Type} [DecidableEq σ] {α : Type} [Field α] [LinearOrder α] [IsStrictOrderedRing α]
+
+/-- a successful `fvec` is the list of the rate-dictionary values in substance order -/
+theorem fvec_ok {keys : List σ} {rs : List (Reaction σ α)} {y f : List α} (h : fvec keys rs y = .ok f) :
+    f = keys.map fun s => valueAt (sysRates (stateFn keys y) rs none none) s := by
+  unfold fvec at h
+  simp only at h
+  generalize sysRates (stateFn keys y) rs none none = d at h ⊢
+  generalize hks : keys = ks at h ⊢
+  clear hks
+  induction ks generalizing f with
+  | nil =>
+    simp only [List.mapM_nil, pure, Except.pure, Except.ok.injEq] at h
+    subst h; rfl
+  | cons s t ih =>
+    rw [List.mapM_cons] at h
+    simp only [bind, Except.bind] at h
+    cases hd : dget? d s with
+    | none => rw [hd] at h; simp at h
+    | some v =>
+      rw [hd] at h
+      simp only at h
+      split at h
+      · simp at h
+      · rename_i ft ht
+        simp only [pure, Except.pure, Except.ok.injEq] at h
+        subst h
+        rw [List.map_cons, ← ih ht]
+        congr 1
+        simp [valueAt, dgetD, hd]
+
+/-- with duplicate-free composition keys and `k ≠ 0`, what `upper_conc_bounds` counts is `composition.get(k, 0)` -/
+theorem compWeight_eq_compGet (comp : EqSolve.Comp α) (hnd : (comp.map Prod.fst).Nodup) (k : ℕ) (hk : k ≠ 0) :
+    compWeight comp k = compGet (comp.map fun p => (((p.1 : ℕ) : ℤ), p.2)) (k : ℤ) := by
+  have hnd' : (dkeys (comp.map fun p => (((p.1 : ℕ) : ℤ), p.2))).Nodup := by
+    unfold dkeys
+    rw [List.map_map]
+    have : (Prod.fst ∘ fun p : ℕ × α => (((p.1 : ℕ) : ℤ), p.2)) = (fun n : ℕ => (n : ℤ)) ∘ Prod.fst := rfl
+    rw [this, ← List.map_map]
+    exact hnd.map Nat.cast_injective
+  have h := sum_ite_of_nodup (β := α) (comp.map fun p => (((p.1 : ℕ) : ℤ), p.2)) hnd' (fun kv => kv.2) (k : ℤ)
+  unfold compGet dgetD
+  rw [List.map_map] at h
+  have hl : compWeight comp k =
+      (comp.map ((fun kv : ℤ × α => if kv.1 = (k : ℤ) then kv.2 else 0) ∘ fun p : ℕ × α => (((p.1 : ℕ) : ℤ), p.2))).sum := by
+    unfold compWeight
+    congr 1
+    apply List.map_congr_left
+    intro p _
+    simp only [Function.comp]
+    by_cases e : p.1 = k
+    · have : p.1 ≠ 0 := e ▸ hk
+      simp [e, hk]
+    · have : ¬ ((p.1 : ℤ) = (k : ℤ)) := fun h' => e (by exact_mod_cast h')
+      simp [e, this]
+  rw [hl, h]
+  cases dget? (comp.map fun p => (((p.1 : ℕ) : ℤ), p.2)) (k : ℤ) <;> simp
+
+end TotalsKin
 
 end ChemModel.EulerStep
